@@ -97,6 +97,16 @@ class TQueue(T):
         self.elem = elem
 
 
+class TTuple(T):
+    single = False
+
+    def __init__(self, *items):
+        self.items = list(items)
+
+    def __repr__(self):
+        return 'tuple(%s)' % ','.join(map(repr, self.items))
+
+
 class TOpt(T):
     def __init__(self, base):
         self.base = base
@@ -131,11 +141,12 @@ class V:
 
 class VInt(V):
     """tz: number of low bits known to be zero (structural), used by the int-mode `|` rule"""
-    __slots__ = ('t', 'tz')
+    __slots__ = ('t', 'tz', 'bits')
 
-    def __init__(self, t, tz=0):
+    def __init__(self, t, tz=0, bits=None):
         self.t = t
         self.tz = tz
+        self.bits = bits    # python int: the value is non-negative and only these bit positions can be set (None: unknown)
 
     def __repr__(self):
         return 'VInt(%s)' % self.t
